@@ -251,7 +251,7 @@ pub fn run(ctx: &Ctx) -> i32 {
     // semantic lane: explicit modes probed by trait resolution (bound(*) constrains parameters that occur only in
     // ignored fields, custom predicates add only what is written, false adds nothing)
     match engine::build_proc_macro() {
-        Ok(so) => crate::props::c11::lane(ctx, &mut rep, &so, ctx.scale(1500, 8000), 0xC125, true, "C12-sem"),
+        Ok(so) => crate::props::c11::lane(ctx, &mut rep, &so, ctx.scale(3000, 8000), 0xC125, true, "C12-sem"),
         Err(e) => rep.inconclusive.push(e.0),
     }
     let n = ctx.scale(40000, 200000);
